@@ -259,6 +259,13 @@ impl UnkHandler {
             entries.append(&mut v);
         }
         offsets.push(entries.len());
+        // Unknown-word candidates carry the entry index in 16 bits (`UnkWord::word_id`).
+        if entries.len() > usize::from(u16::MAX) + 1 {
+            return Err(VibratoError::invalid_format(
+                "unk.def",
+                "The number of entries must be no more than 65536.",
+            ));
+        }
         Ok(Self { offsets, entries })
     }
 }
